@@ -481,6 +481,8 @@ pub fn gen_program(t: &mut Tape, cfg: &GenCfg) -> Program {
 fn gen_min(t: &mut Tape, cfg: &GenCfg, p: &Program, params: &mut Vec<(String, Ty)>, outs: &[String]) -> Option<Amount> {
     let mut terms: Vec<(bool, Term)> = vec![];
     let shape = match cfg.profile {
+        // histories (C20): thresholds that mention min_utxo(..) are where a stale body can decide
+        _ if cfg.force_min_utxo == Some(true) && !outs.is_empty() && t.chance(1, 2) => 4,
         Profile::Selection => t.weighted(&[4, 2, 3, 2, 1]),
         Profile::Fee => t.weighted(&[2, 0, 1, 5, 3]),
         _ => t.weighted(&[3, 1, 2, 3, 2]),
@@ -853,6 +855,9 @@ pub enum AmountDist {
     Comfortable,
     Boundary,
     Tight,
+    /// around coins_per_utxo_byte x (plausible output sizes): where a min_utxo(..) threshold
+    /// computed from one body or another decides whether a UTxO covers it
+    Threshold(u64, u64),
 }
 
 pub struct LedgerCfg {
@@ -869,6 +874,12 @@ pub fn draw_lovelace(t: &mut Tape, dist: &AmountDist) -> i128 {
         AmountDist::Small => t.draw(6) as i128 * 1_000_000,
         AmountDist::Comfortable => 50_000_000 + t.draw(950) as i128 * 1_000_000,
         AmountDist::Tight => *t.pick(&[2_000_000i128, 1_000_000, 3_000_000, 5_000_000, 2_200_000, 10_000_000, 12_000_000]),
+        AmountDist::Threshold(cpb, center) => {
+            // every UTxO of the ledger within a few bytes' worth of one size: whether the best
+            // candidate covers a threshold then hinges on which body sized it
+            let size = *center as i128 - 12 + t.draw(25) as i128;
+            *cpb as i128 * size + t.draw(40) as i128 * (*cpb as i128 / 41)
+        }
         AmountDist::Boundary => {
             let base = *t.pick(&[
                 1i128 << 32,
